@@ -1,7 +1,7 @@
 """Executor for C19 (specs/Buffer*.tla): one backing object (bytearray, array.array('H') or a
 cdata char[]), real ffi.buffer objects, from_buffer views and memmove calls on it; every
 operation returns the observed event in the format of Trace_Buffer.tla."""
-import array
+import array, ctypes
 from harness import core
 from harness import mem_common as mc
 
@@ -39,10 +39,12 @@ class BufArena:
             self.root = f.from_buffer("char[]", self.obj)
             self.pyobj = self.obj
         elif backing == "cdata":
+            # the arena is observed and exposed as a Python buffer through ctypes, not through ffi.buffer
             self.root = f.new("char[]", max(len(init), 1))
-            f.buffer(self.root, len(init))[:] = bytes(init)
+            self.addr = int(f.cast("uintptr_t", self.root))
+            ctypes.memmove(self.addr, bytes(init), len(init))
             self.obj = None
-            self.pyobj = f.buffer(self.root, len(init))     # a Python-level buffer over the cdata
+            self.pyobj = (ctypes.c_char * len(init)).from_address(self.addr)
         else:
             raise ValueError(backing)
         self.bufs, self.bufdesc, self.fbs, self.fbdesc, self.fbobjlen = [], [], [], [], []
@@ -50,7 +52,7 @@ class BufArena:
 
     def snap(self):
         if self.backing == "cdata":
-            return bytes(self.ffi.buffer(self.root, self.n))
+            return ctypes.string_at(self.addr, self.n)
         return bytes(memoryview(self.pyobj).cast("B"))
 
     def header(self):
@@ -65,7 +67,7 @@ class BufArena:
             return self.root[off:self.n if length is None else off + length]
         if kind == "buf":
             return f.buffer(self.root + off, (self.n - off) if length is None else length)
-        mv = memoryview(self.pyobj).cast("B")
+        mv = memoryview(self.pyobj).cast("B") if self.n else memoryview(bytearray(0))
         return mv[off:] if length is None else mv[off:off + length]
 
     def apply(self, op):
@@ -86,15 +88,24 @@ class BufArena:
         try:
             o = ev["op"]
             if o == "buffer":
-                how = op.get("how", ("ptr", "slice", "whole")[self.cnt % 3])
-                if how == "whole" and (ev["i"] != 0 or ev["n"] != self.n or self.backing != "cdata" or self.n == 0):
+                # pointer cdata / array cdata with an explicit size, array cdata without, the root object itself
+                how = op.get("how", ("ptr", "arr", "slice", "root")[self.cnt % 4])
+                i, n = ev["i"], ev["n"]
+                if how == "root" and i != 0:
+                    how = "arr"
+                if how == "slice" and i + n > self.n:
                     how = "ptr"
+                if how in ("arr", "root") and self.n == 0 and self.backing == "cdata":
+                    how = "ptr"                    # the cdata arena of an empty model has one spare byte
                 if how == "ptr":
-                    new_buf = f.buffer(self.root + ev["i"], ev["n"])
+                    new_buf = f.buffer(self.root + i, n)
+                elif how == "arr":
+                    new_buf = f.buffer(self.root[i:self.n], n)
                 elif how == "slice":
-                    new_buf = f.buffer(self.root[ev["i"]:ev["i"] + ev["n"]])
+                    new_buf = f.buffer(self.root[i:i + n])
                 else:
-                    new_buf = f.buffer(self.root)
+                    new_buf = f.buffer(self.root, n)
+                ev["how"] = how
                 ev["num"] = len(new_buf)
             elif o == "getidx":
                 x = self.bufs[ev["b"] - 1][ev["i"]]
@@ -149,6 +160,8 @@ class BufArena:
         if new_buf is not None:
             self.bufs.append(new_buf)
             self.bufdesc.append((ev["i"], ev["n"]))
+            if ev["num"] != ev["n"]:
+                ev["stop"] = True       # a view of the wrong length: nothing further is done through it
         if new_fb is not None:
             self.fbs.append(new_fb)
             self.fbdesc.append(FB_TYPES[ev["n"]])
@@ -164,6 +177,8 @@ class BufArena:
         """Every buffer created so far shows exactly the arena bytes it covers (liveness)."""
         s = self.snap()
         for b, (off, n) in zip(self.bufs, self.bufdesc):
+            if off + n > self.n:
+                continue                # a view reaching past the object is only measured, never read
             if bytes(b) != s[off:off + n] or len(b) != n:
                 return False
         return True
@@ -270,6 +285,8 @@ class ScaledArena:
             ev["st"] = r["st"]
             if "msg" in r:
                 ev["msg"] = r["msg"]
+            if r.get("stop"):
+                ev["stop"] = True
             if o == "buffer":
                 ev["num"] = r["num"] // k if r["num"] % k == 0 else -1
             elif o == "getslice" and r["st"] == "ok":
